@@ -80,7 +80,7 @@ func cmdCheck(args []string) int {
 		seed, _ = strconv.Atoi(s)
 	}
 	start := time.Now()
-	timeout := 10
+	timeout := 20
 	if *tier == "thorough" {
 		timeout = 60
 	}
